@@ -81,7 +81,7 @@ func handle(req svc.Request) svc.Response {
 	case "mem":
 		var ms runtime.MemStats
 		runtime.ReadMemStats(&ms)
-		return svc.Response{ID: req.ID, Stats: &svc.Stats{HeapInuse: ms.HeapInuse, HeapAlloc: ms.HeapAlloc, Sys: ms.Sys, Goroutines: runtime.NumGoroutine()}}
+		return svc.Response{ID: req.ID, Stats: &svc.Stats{HeapInuse: ms.HeapInuse, HeapAlloc: ms.HeapAlloc, Sys: ms.Sys, Goroutines: runtime.NumGoroutine(), CPUMs: cpuMs()}}
 	case "waitclosed":
 		return waitClosed(req)
 	}
@@ -279,14 +279,7 @@ func stats() *svc.Stats {
 			}
 		}
 	}
-	if data, err := os.ReadFile("/proc/self/stat"); err == nil {
-		fs := strings.Fields(string(data[strings.LastIndexByte(string(data), ')')+2:]))
-		if len(fs) > 12 {
-			ut, _ := strconv.ParseInt(fs[11], 10, 64)
-			st, _ := strconv.ParseInt(fs[12], 10, 64)
-			s.CPUMs = (ut + st) * 10
-		}
-	}
+	s.CPUMs = cpuMs()
 	for _, e := range inst.Cap.Events() {
 		if e.SerErr != "" {
 			s.SerialiseKO++
@@ -294,6 +287,18 @@ func stats() *svc.Stats {
 		}
 	}
 	return s
+}
+
+func cpuMs() int64 {
+	if data, err := os.ReadFile("/proc/self/stat"); err == nil {
+		fs := strings.Fields(string(data[strings.LastIndexByte(string(data), ')')+2:]))
+		if len(fs) > 12 {
+			ut, _ := strconv.ParseInt(fs[11], 10, 64)
+			st, _ := strconv.ParseInt(fs[12], 10, 64)
+			return (ut + st) * 10
+		}
+	}
+	return 0
 }
 
 var stackBuf []byte
